@@ -72,7 +72,10 @@ type fileCtx struct {
 	src   []byte
 	tf    *token.File
 	edits []edit
+	keepImport string
 }
+
+var syncRecvIdent = map[*ast.Ident]bool{}
 
 var (
 	inv      Inventory
@@ -230,6 +233,9 @@ func instrumentPackage(label, dir string, p *packages.Package) {
 		}
 		// import, on the package clause line so that line numbers stay
 		fc.insert(f.Name.End(), `; import __simrt "verif.local/simrt"`, 0)
+		if fc.keepImport != "" {
+			fc.edits = append(fc.edits, edit{len(fc.src), len(fc.src), "\nvar _ " + fc.keepImport + ".Mutex\n", 9})
+		}
 		if err := os.WriteFile(path, applyEdits(fc), 0o644); err != nil {
 			fatal = append(fatal, err.Error())
 		}
@@ -294,7 +300,13 @@ func instrumentFile(label string, p *packages.Package, f *ast.File, fc *fileCtx)
 		switch x := n.(type) {
 		case *ast.BlockStmt:
 			for _, s := range x.List {
-				listed[s] = true
+				switch s.(type) {
+				case *ast.CaseClause, *ast.CommClause:
+					// the clause itself is no place to put a statement before (its expressions
+					// belong to the switch); only the statements of its body are
+				default:
+					listed[s] = true
+				}
 			}
 		case *ast.CaseClause:
 			for _, s := range x.Body {
@@ -464,7 +476,7 @@ func instrumentFile(label string, p *packages.Package, f *ast.File, fc *fileCtx)
 				fc.insert(x.Body.Lbrace+1, fmt.Sprintf(" __simrt.Enter(%d);", id), 3)
 			}
 			if t := info.TypeOf(x.X); t != nil {
-				if _, ok := t.Underlying().(*types.Map); ok {
+				if isMapLike(t) {
 					rewriteMapRange(label, p, fc, x, labeled[x], funcName)
 				}
 				if _, ok := t.Underlying().(*types.Chan); ok {
@@ -486,7 +498,7 @@ func instrumentFile(label string, p *packages.Package, f *ast.File, fc *fileCtx)
 			handleCall(label, p, fc, x, funcName, hostStmt, syncDone)
 		case *ast.Ident:
 			v, ok := info.Uses[x].(*types.Var)
-			if !ok {
+			if !ok || syncRecvIdent[x] {
 				break
 			}
 			id, ok := varIDs[v]
@@ -531,15 +543,28 @@ func instrumentFile(label string, p *packages.Package, f *ast.File, fc *fileCtx)
 			}
 			if isLocal {
 				keyExpr := "&" + x.Name
+				skip := false
 				if kind == 1 {
-					// v[i] = ... on a slice or array: the element, not the variable, is written
-					// (per-slot results filled by several goroutines are the standard correct idiom)
-					if el := elementWriteTarget(info, innermostStmt(stack), x, fc); el != "" {
-						fc.insert(at, fmt.Sprintf("__simrt.AccessL(%d, %d, %d, &%s); ", sid, id, hk&^1, x.Name), 1)
+					el, usable := elementWriteTarget(info, innermostStmt(stack), x, fc)
+					if !usable {
+						// a write through a map index or an impure index expression: the variable is
+						// only read here as far as the log can tell without changing the program
+						hk &^= 1
+					} else if el != "" {
+						// (no separate read of the variable itself: a struct and its first field, an
+						// array and its first element share an address)
 						keyExpr = "&" + el
 					}
 				}
-				fc.insert(at, fmt.Sprintf("__simrt.AccessL(%d, %d, %d, %s); ", sid, id, hk, keyExpr), 1)
+				if !skip {
+					fc.insert(at, fmt.Sprintf("__simrt.AccessL(%d, %d, %d, %s); ", sid, id, hk, keyExpr), 1)
+				}
+			} else if comp := firstLevelComponent(info, stack, x, host, fc); comp != "" && !(kind == 1 && wholeVarWrite(innermostStmt(stack), x)) {
+				// a first-level component (array/slice element, struct field): striped state with
+				// one lock per component is then not mistaken for one location. The address is
+				// taken under recover (the hook runs before the statement, possibly before the
+				// check that guards the access).
+				fc.insert(at, fmt.Sprintf("__simrt.AccessC(%d, %d, %d, __simrt.Addr(func() any { return &%s })); ", sid, id, hk, comp), 1)
 			} else {
 				fc.insert(at, fmt.Sprintf("__simrt.Access(%d, %d, %d); ", sid, id, hk), 1)
 			}
@@ -549,10 +574,14 @@ func instrumentFile(label string, p *packages.Package, f *ast.File, fc *fileCtx)
 	ast.Inspect(f, visit)
 }
 
-// elementWriteTarget: if stmt assigns to (or increments) X[i]... where X is the identifier id
-// and X is a slice, an array or a pointer to an array, it returns the source text of the
-// indexed element ("X[i]"); otherwise "".
-func elementWriteTarget(info *types.Info, stmt ast.Stmt, id *ast.Ident, fc *fileCtx) string {
+// elementWriteTarget: if stmt assigns to (or increments) a field / element path rooted at the
+// identifier id - X.f, X[i], X[i][j].f ... through struct fields and slice/array indexes
+// only - it returns the source text of that path, whose address identifies the memory that
+// is written (several goroutines filling their own slot or field is the standard correct
+// idiom). It returns "" for a plain `X = ...` and ok=false when the path cannot be used
+// (a map index, or an index expression that is not free of side effects: evaluating it a
+// second time would change the program).
+func elementWriteTarget(info *types.Info, stmt ast.Stmt, id *ast.Ident, fc *fileCtx) (string, bool) {
 	var lhs []ast.Expr
 	switch x := stmt.(type) {
 	case *ast.AssignStmt:
@@ -562,7 +591,9 @@ func elementWriteTarget(info *types.Info, stmt ast.Stmt, id *ast.Ident, fc *file
 	}
 	for _, l := range lhs {
 		e := l
-		var idx *ast.IndexExpr
+		ok := true
+		viaMap := false
+		depth := 0
 		for {
 			switch y := e.(type) {
 			case *ast.ParenExpr:
@@ -570,28 +601,136 @@ func elementWriteTarget(info *types.Info, stmt ast.Stmt, id *ast.Ident, fc *file
 				continue
 			case *ast.SelectorExpr:
 				e = y.X
+				depth++
+				continue
+			case *ast.StarExpr:
+				e = y.X
+				depth++
 				continue
 			case *ast.IndexExpr:
-				idx = y
+				if _, isMap := info.TypeOf(y.X).Underlying().(*types.Map); isMap {
+					viaMap = true // writing a map entry writes the map itself
+				} else if !pureExpr(y.Index) {
+					ok = false
+				}
 				e = y.X
+				depth++
 				continue
 			}
 			break
 		}
-		if base, ok := e.(*ast.Ident); ok && base == id && idx != nil {
-			if bid, ok := idx.X.(*ast.Ident); ok && bid == id {
-				switch t := info.TypeOf(idx.X).Underlying().(type) {
-				case *types.Slice, *types.Array:
-					return fc.text(idx)
-				case *types.Pointer:
-					if _, isArr := t.Elem().Underlying().(*types.Array); isArr {
-						return fc.text(idx)
-					}
+		if base, isID := e.(*ast.Ident); isID && base == id {
+			if depth == 0 || viaMap {
+				return "", true
+			}
+			if !ok {
+				return "", false
+			}
+			return fc.text(l), true
+		}
+	}
+	return "", true
+}
+
+// firstLevelComponent: if the identifier (a package variable) is used as X in X[i] (slice,
+// array, pointer to array; pure index whose identifiers are all declared before the host
+// statement) or X.f (a struct field, not a method), the source text of that component.
+func firstLevelComponent(info *types.Info, stack []ast.Node, id *ast.Ident, host ast.Stmt, fc *fileCtx) string {
+	// parent of the identifier (skipping a package qualifier: pkg.Var)
+	i := len(stack) - 2
+	var self ast.Expr = id
+	if i >= 0 {
+		if se, ok := stack[i].(*ast.SelectorExpr); ok && se.Sel == id {
+			self = se
+			i--
+		}
+	}
+	if i < 0 {
+		return ""
+	}
+	switch p := stack[i].(type) {
+	case *ast.SelectorExpr:
+		if p.X != self {
+			return ""
+		}
+		if sel := info.Selections[p]; sel == nil || sel.Kind() != types.FieldVal || len(sel.Index()) != 1 {
+			return ""
+		}
+		return fc.text(p)
+	case *ast.IndexExpr:
+		if p.X != self || !pureExpr(p.Index) {
+			return ""
+		}
+		switch t := info.TypeOf(p.X).Underlying().(type) {
+		case *types.Slice, *types.Array:
+		case *types.Pointer:
+			if _, isArr := t.Elem().Underlying().(*types.Array); !isArr {
+				return ""
+			}
+		default:
+			return ""
+		}
+		inScope := true
+		ast.Inspect(p.Index, func(n ast.Node) bool {
+			if x, ok := n.(*ast.Ident); ok {
+				if obj := info.Uses[x]; obj != nil && obj.Pkg() != nil && obj.Parent() != obj.Pkg().Scope() && !(obj.Pos() < host.Pos()) {
+					inScope = false
 				}
+			}
+			return inScope
+		})
+		if !inScope {
+			return ""
+		}
+		return fc.text(p)
+	}
+	return ""
+}
+
+// wholeVarWrite: the statement assigns to the identifier itself (X = ..., X++).
+func wholeVarWrite(stmt ast.Stmt, id *ast.Ident) bool {
+	var lhs []ast.Expr
+	switch x := stmt.(type) {
+	case *ast.AssignStmt:
+		lhs = x.Lhs
+	case *ast.IncDecStmt:
+		lhs = []ast.Expr{x.X}
+	}
+	for _, l := range lhs {
+		for {
+			if pe, ok := l.(*ast.ParenExpr); ok {
+				l = pe.X
+				continue
+			}
+			break
+		}
+		if l == ast.Expr(id) {
+			return true
+		}
+		if se, ok := l.(*ast.SelectorExpr); ok && se.Sel == id {
+			if _, isPkg := se.X.(*ast.Ident); isPkg {
+				return true
 			}
 		}
 	}
-	return ""
+	return false
+}
+
+// pureExpr: identifiers, literals, selectors and arithmetic on them - no calls, no receives.
+func pureExpr(e ast.Expr) bool {
+	pure := true
+	ast.Inspect(e, func(n ast.Node) bool {
+		switch x := n.(type) {
+		case *ast.CallExpr, *ast.FuncLit:
+			pure = false
+		case *ast.UnaryExpr:
+			if x.Op == token.ARROW {
+				pure = false
+			}
+		}
+		return pure
+	})
+	return pure
 }
 
 // innermostStmt returns the innermost statement on the stack (listed or not): the
@@ -634,16 +773,53 @@ func isSimpleOperand(e ast.Expr) bool {
 	return false
 }
 
+// isMapLike: a map type, or a type parameter all of whose type-set terms are maps
+// (`M ~map[K]V`): ranging over either is a seam.
+func isMapLike(t types.Type) bool {
+	if _, ok := t.Underlying().(*types.Map); ok {
+		return true
+	}
+	tp, ok := t.(*types.TypeParam)
+	if !ok {
+		return false
+	}
+	iface, ok := tp.Constraint().Underlying().(*types.Interface)
+	if !ok {
+		return false
+	}
+	found := false
+	for i := 0; i < iface.NumEmbeddeds(); i++ {
+		switch e := iface.EmbeddedType(i).(type) {
+		case *types.Union:
+			for j := 0; j < e.Len(); j++ {
+				if _, isMap := e.Term(j).Type().Underlying().(*types.Map); !isMap {
+					return false
+				}
+				found = true
+			}
+		default:
+			if _, isMap := e.Underlying().(*types.Map); isMap {
+				found = true
+			} else if _, isIface := e.Underlying().(*types.Interface); !isIface {
+				return false
+			}
+		}
+	}
+	return found
+}
+
 func rewriteMapRange(label string, p *packages.Package, fc *fileCtx, x *ast.RangeStmt, lab *ast.LabeledStmt, fn string) {
 	id := newSite("maprange", fc, label, x.Pos(), fn, fc.text(x.X))
 	mtxt := fc.text(x.X)
 	useTmp := true
+	labeledTmp := false
 	if lab != nil {
-		if !isSimpleOperand(x.X) {
-			fatal = append(fatal, fmt.Sprintf("%s:%d: labeled range over a non-trivial map expression", fc.rel, fc.tf.Line(x.Pos())))
-			return
+		if isSimpleOperand(x.X) {
+			useTmp = false
+		} else {
+			// { __vm := M; lbl: for ... { } }  - the label stays on the for statement
+			labeledTmp = true
 		}
-		useTmp = false
 	}
 	keyTxt, valTxt := "_", "_"
 	if x.Key != nil {
@@ -654,7 +830,10 @@ func rewriteMapRange(label string, p *packages.Package, fc *fileCtx, x *ast.Rang
 	}
 	mref := mtxt
 	var b strings.Builder
-	if useTmp {
+	if labeledTmp {
+		fc.insert(lab.Pos(), "{ __vm := "+mtxt+"; ", 0)
+		mref = "__vm"
+	} else if useTmp {
 		b.WriteString("{ __vm := " + mtxt + "; ")
 		mref = "__vm"
 	}
@@ -687,29 +866,26 @@ func rewriteMapRange(label string, p *packages.Package, fc *fileCtx, x *ast.Rang
 func rewriteGo(label string, fc *fileCtx, g *ast.GoStmt, fn string, isListed bool) {
 	id := newSite("go", fc, label, g.Pos(), fn, "")
 	call := g.Call
-	if len(call.Args) == 0 {
-		// go F()  ->  __simrt.Go(id, func() { F() })
-		fc.replace(g.Go, call.Fun.Pos(), fmt.Sprintf("__simrt.Go(%d, func() { ", id))
-		fc.replace(call.Lparen, g.End(), "() })")
+	n := len(call.Args)
+	if call.Ellipsis.IsValid() || n > 8 {
+		fatal = append(fatal, fmt.Sprintf("%s:%d: go statement with a variadic spread or more than 8 arguments", fc.rel, fc.tf.Line(g.Pos())))
 		return
 	}
-	if !isListed {
-		fatal = append(fatal, fmt.Sprintf("%s:%d: go statement with arguments in a non-list position", fc.rel, fc.tf.Line(g.Pos())))
-		return
+	// go F(a, b)  ->  __simrt.Go2(id, F, a, b)
+	// The function value (a method value binds its receiver) and the arguments are evaluated at
+	// the statement, as the language requires; untyped constants and nil take the parameter
+	// types through type inference. Only the `go` keyword and the opening parenthesis are
+	// replaced, so edits inside the callee or the arguments stay valid.
+	name := "Go"
+	if n > 0 {
+		name = fmt.Sprintf("Go%d", n)
 	}
-	// go F(a, b) -> { __g0, __g1 := a, b; __simrt.Go(id, func() { F(__g0, __g1) }) }
-	// (arguments are evaluated at the go statement, as the language requires)
-	var names, vals []string
-	for i, a := range call.Args {
-		names = append(names, fmt.Sprintf("__g%d", i))
-		vals = append(vals, fc.text(a))
+	fc.replace(g.Go, call.Fun.Pos(), fmt.Sprintf("__simrt.%s(%d, ", name, id))
+	if n > 0 {
+		fc.replace(call.Lparen, call.Lparen+1, ", ")
+	} else {
+		fc.replace(call.Lparen, call.Rparen+1, ")")
 	}
-	ell := ""
-	if call.Ellipsis.IsValid() {
-		ell = "..."
-	}
-	fc.replace(g.Go, call.Fun.Pos(), fmt.Sprintf("{ %s := %s; __simrt.Go(%d, func() { ", strings.Join(names, ", "), strings.Join(vals, ", "), id))
-	fc.replace(call.Lparen, g.End(), fmt.Sprintf("(%s%s) }) }", strings.Join(names, ", "), ell))
 }
 
 // isSyncMarkCall reports whether a call is one of the synchronisation operations that are
@@ -797,6 +973,10 @@ func handleCall(label string, p *packages.Package, fc *fileCtx, c *ast.CallExpr,
 			path := pn.Imported().Path()
 			name := sel.Sel.Name
 			switch {
+			case path == "sync" && (name == "OnceFunc" || name == "OnceValue" || name == "OnceValues"):
+				sid := newSite("sync", fc, label, c.Pos(), fn, "sync."+name)
+				fc.replace(c.Pos(), c.Lparen+1, fmt.Sprintf("__simrt.%s(%d, ", name, sid))
+				fc.keepImport = id.Name // the file may now have no other use of the package
 			case path == "sync/atomic":
 				markSync("atomic." + name)
 			case path == "math/rand" || path == "math/rand/v2" || path == "crypto/rand":
@@ -895,6 +1075,14 @@ func handleCall(label string, p *packages.Package, fc *fileCtx, c *ast.CallExpr,
 			recvTxt = "&(" + recvTxt + ")"
 		}
 	}
+	// the receiver expression only names the primitive: mentioning a package variable there
+	// (a mutex stored inside the variable it protects) is not an access to the protected data
+	ast.Inspect(sel.X, func(n ast.Node) bool {
+		if id, ok := n.(*ast.Ident); ok {
+			syncRecvIdent[id] = true
+		}
+		return true
+	})
 	sid := newSite("sync", fc, label, c.Pos(), fn, rs+"."+name)
 	sep := ""
 	if len(c.Args) > 0 {
